@@ -199,7 +199,8 @@ func vecPendingKeys(ob VecObs) []int64 {
 	}
 	var r []int64
 	for _, k := range ob.Index {
-		if !has[k] || val[k] == 0 {
+		// (after a malformed operation a key can lie outside [0,n): not aimed at)
+		if (!has[k] || val[k] == 0) && k >= 0 && k < int64(ob.N) {
 			r = append(r, k)
 		}
 	}
@@ -229,7 +230,7 @@ func vecAimFrom(r *Rng, ob VecObs) (int64, bool) {
 	p := pk[r.Intn(len(pk))]
 	lo := int64(0)
 	for _, k := range ob.Index {
-		if k < p {
+		if k < p && k+1 > lo {
 			lo = k + 1
 		}
 	}
@@ -548,7 +549,8 @@ func genCase(r *Rng, tn string, malformed bool, cw *CaseWriter) (Case, genStats)
 				inIdx[key] = true
 			}
 			for i, key := range obs[t].Keys {
-				if obs[t].Vals[i] != 0 {
+				// (after a malformed operation a key can lie outside [0,d): not used)
+				if obs[t].Vals[i] != 0 && key >= 0 && key < int64(d) {
 					stored = append(stored, key)
 				}
 			}
